@@ -64,3 +64,130 @@ def real_grid(name, regime=EXACT, srs=3857):
     thr = [regime.fwd_len(r) for r in g.get('thr', ())] or None
     return TileGrid(SRS(srs), bbox=bbox, tile_size=(g['tw'], g['th']), res=res, origin='ul' if g['ul'] else 'll',
                     stretch_factor=SN / float(SD), max_shrink_factor=float(MS), threshold_res=thr)
+
+
+# ---------------------------------------------------------------------------------------------------------
+# end-to-end lattice world: a real MapProxyApp on a lattice grid with a position-encoding fake upstream
+# ---------------------------------------------------------------------------------------------------------
+import io
+import os
+import shutil
+import tempfile
+
+BGCOL = (255, 255, 255)
+
+
+def paint_cells(g, bbox, size):
+    """PIL image whose pixel (i, j) encodes the lattice cell of its centre at the resolution of the request:
+    R = cx + 20, G = cy + 20 (cell indices counted from the grid's lower-left corner), B = 100 + level"""
+    from PIL import Image
+    bx0, by0, bx1, by1 = bbox
+    w, h = size
+    rx, ry = (bx1 - bx0) / float(w), (by1 - by0) / float(h)
+    lvl = min(range(len(g['res'])), key=lambda i: abs(g['res'][i] - rx))
+    lres = g['res'][lvl]
+    gx0, gy0 = g['bbox'][0], g['bbox'][1]
+    img = Image.new('RGB', (w, h))
+    px = img.load()
+    for j in range(h):
+        cy = int(((by1 - (j + 0.5) * ry) - gy0) // lres)
+        for i in range(w):
+            cx = int(((bx0 + (i + 0.5) * rx) - gx0) // lres)
+            px[i, j] = ((cx + 20) % 256, (cy + 20) % 256, 100 + lvl)
+    return img
+
+
+def decode_cells(g, img):
+    """image -> (level, {(i, j): (cx, cy)} for encoded pixels, set of background pixels)"""
+    img = img.convert('RGBA')
+    px = img.load()
+    cells, bg, lvls = {}, set(), set()
+    for j in range(img.size[1]):
+        for i in range(img.size[0]):
+            r, gg, b, a = px[i, j]
+            if a == 0 or (r, gg, b) == BGCOL or not (100 <= b < 100 + len(g['res'])):
+                bg.add((i, j))
+            else:
+                cells[(i, j)] = (r - 20, gg - 20)
+                lvls.add(b - 100)
+    return lvls, cells, bg
+
+
+def cells_rect(g, lvl, cells):
+    """ground rectangle (lattice units) covered by the encoded cells"""
+    r = g['res'][lvl]
+    xs = [c[0] for c in cells.values()]
+    ys = [c[1] for c in cells.values()]
+    return [g['bbox'][0] + min(xs) * r, g['bbox'][1] + min(ys) * r, g['bbox'][0] + (max(xs) + 1) * r, g['bbox'][1] + (max(ys) + 1) * r]
+
+
+class LatticeApp(object):
+    """MapProxyApp on one lattice grid: layer `lay` <- cache `c` (file) <- WMS source `up` (faked)"""
+
+    def __init__(self, g, srs='EPSG:3857', meta_size=(2, 2), meta_buffer=0, source_coverage=None, services=None,
+                 extra_conf=None, regime=None):
+        from mapproxy.config.loader import ProxyConfiguration
+        from mapproxy.wsgiapp import MapProxyApp
+        import mapproxy.client.http as http
+        from webtest import TestApp
+        self.g = g
+        self.dir = tempfile.mkdtemp(prefix='verif-lapp-')
+        self.log = []
+        src = {'type': 'wms', 'req': {'url': 'http://upstream.invalid/service', 'layers': 'up'},
+               'supported_srs': [srs]}
+        if source_coverage:
+            src['coverage'] = {'bbox': list(source_coverage), 'srs': srs}
+        conf = {
+            'services': services or {'tms': {}, 'wmts': {'restful': True, 'kvp': True}, 'kml': {}, 'wms': {'srs': [srs], 'md': {'title': 't'}}},
+            'layers': [{'name': 'lay', 'title': 'lay', 'sources': ['c']}],
+            'caches': {'c': {'grids': ['g'], 'sources': ['up'], 'format': 'image/png',
+                             'meta_size': list(meta_size), 'meta_buffer': meta_buffer,
+                             'cache': {'type': 'file', 'directory': os.path.join(self.dir, 'cache')}}},
+            'sources': {'up': src},
+            'grids': {'g': {'srs': srs, 'bbox': list(g['bbox']), 'res': list(g['res']), 'tile_size': [g['tw'], g['th']],
+                            'origin': 'ul' if g['ul'] else 'll'}},
+            'globals': {'image': {'paletted': False, 'resampling_method': 'nearest'},
+                        'cache': {'base_dir': os.path.join(self.dir, 'cache_data'), 'lock_dir': os.path.join(self.dir, 'locks'),
+                                  'tile_lock_dir': os.path.join(self.dir, 'tile_locks')}},
+        }
+        if extra_conf:
+            for k, v in extra_conf.items():
+                if isinstance(v, dict) and isinstance(conf.get(k), dict):
+                    conf[k].update(v)
+                else:
+                    conf[k] = v
+        self.conf = conf
+        pc = ProxyConfiguration(conf, conf_base_dir=self.dir, seed=False, renderd=False)
+        self.app = TestApp(MapProxyApp(pc.configured_services(), pc.base_config))
+        self._http = http
+        self._orig_open = http.HTTPClient.open
+        world = self
+
+        def fake_open(client, url, data=None, method=None):
+            return world._upstream(url)
+        http.HTTPClient.open = fake_open
+
+    def _upstream(self, url):
+        from urllib.parse import urlparse, parse_qs
+        q = {k.upper(): v[0] for k, v in parse_qs(urlparse(url).query).items()}
+        self.log.append(q)
+        bbox = [float(v) for v in q['BBOX'].split(',')]
+        size = (int(q['WIDTH']), int(q['HEIGHT']))
+        img = paint_cells(self.g, bbox, size)
+        buf = io.BytesIO()
+        img.save(buf, 'PNG')
+        buf.seek(0)
+        buf.headers = {'Content-type': 'image/png'}
+        buf.code = 200
+        return buf
+
+    def get(self, path, status='*', **kw):
+        return self.app.get(path, status=status, **kw)
+
+    def image(self, resp):
+        from PIL import Image
+        return Image.open(io.BytesIO(resp.body))
+
+    def close(self):
+        self._http.HTTPClient.open = self._orig_open
+        shutil.rmtree(self.dir, ignore_errors=True)
